@@ -99,3 +99,20 @@ func init() {
 	addMutant(Mutant{Name: "c22-int-as-int64", Property: "C22", File: "gnmidiff/intent.go",
 		Old: "return float64(tv.GetIntVal()), nil", New: "return tv.GetIntVal(), nil", Expect: "TypedValue_IntVal"})
 }
+
+func init() {
+	// C25
+	addMutant(Mutant{Name: "c25-unsorted-modules", Property: "C25", File: "ygen/codegen.go",
+		Old: "\tsort.Strings(modNames)\n", New: "\tsort.Strings(nil)\n", Expect: "processModules"})
+	addMutant(Mutant{Name: "c25-fields-in-map-order", Property: "C25", File: "gogen/codegen.go",
+		Old: "\t\tfor _, fn := range dir.OrderedFieldNames() {\n\t\t\tfield := dir.Fields[fn]\n", New: "\t\tfor _, field := range dir.Fields {\n", Expect: "range(dir.Fields)"})
+	addMutant(Mutant{Name: "c25-dirs-in-map-order", Property: "C25", File: "ygen/genstate.go",
+		Old: "\tfor _, entryKey := range genutil.GetOrderedEntryKeys(entries) {\n\t\te := entries[entryKey]\n", New: "\tfor _, e := range entries {\n", Expect: "range(entries)"})
+	addMutant(Mutant{Name: "c25-header-imports-unsorted", Property: "C25", File: "protogen/protogen.go",
+		Old: "\tsort.Strings(in.Imports)\n", New: "", Expect: "writeProto3Header:sorts-imports"})
+	addMutant(Mutant{Name: "c25-proto-fields-unsorted", Property: "C25", File: "protogen/protogen.go",
+		Old: "\tsort.Strings(fNames)\n", New: "", Expect: "range(msg.Fields)"})
+	addMutant(Mutant{Name: "c25-timestamp", Property: "C25", File: "gogen/codegen.go",
+		Old: "\t\tdefinedUnionTypes := map[string]bool{}\n", New: "\t\tdefinedUnionTypes := map[string]bool{}\n\t\t_ = fmt.Sprint(time.Now())\n", Expect: "no-ambient-state",
+		More: []Edit{{"gogen/codegen.go", "import (\n", "import (\n\t\"time\"\n"}}})
+}
